@@ -253,6 +253,55 @@ def relations(res, rng):
     if err_s > 1e-6 or err_f > 1e-6:
         res.fail("covariance:MeanFieldTempo under a Haar change of basis",
                  {"api": "MeanFieldTempo", "state_difference": err_s, "field_difference": err_f})
+    # (d) two mean-field species whose couplings have the SAME spectrum but different eigenvectors
+    #     (0.5 sigma_x and a rotated 0.5 sigma_y), systems independent of the field: each species
+    #     must be what plain Tempo gives for its own bath
+    vy = cases.rand_unitary(rng, 2)
+    coups = [0.5 * op.sigma("x"), vy @ (0.5 * op.sigma("y")) @ vy.conj().T]
+    coups = [(c + c.conj().T) / 2 for c in coups]
+    hams = [0.4 * op.sigma("z") + 0.1 * op.sigma("x"), 0.3 * op.sigma("x") - 0.2 * op.sigma("z")]
+    rhos = [op.spin_dm("z+"), op.spin_dm("y+")]
+    parm = oqupy.TempoParameters(dt=0.1, epsrel=1e-9, dkmax=3)
+    mfs = oqupy.MeanFieldSystem([oqupy.TimeDependentSystemWithField(lambda t, a, h=h: h) for h in hams],
+                                lambda t, st, a: -0.1j * a)
+    dynm = oqupy.MeanFieldTempo(mean_field_system=mfs, bath_list=[oqupy.Bath(c, corr) for c in coups],
+                                initial_state_list=rhos, initial_field=0.5, start_time=0.0,
+                                parameters=parm).compute(0.43, progress_type="silent")
+    for j in range(2):
+        refj = np.array(oqupy.Tempo(oqupy.System(hams[j]), oqupy.Bath(coups[j], corr), parm, rhos[j],
+                                    start_time=0.0).compute(0.43, progress_type="silent").states)
+        errj = float(np.abs(np.array(dynm.system_dynamics[j].states) - refj).max())
+        res.case("relation:mean-field-isospectral:%d" % j, True, {"species": j, "difference_to_Tempo": errj})
+        if errj > 1e-6:
+            res.fail("covariance:MeanFieldTempo: species %d of two with isospectral non-diagonal couplings" % j,
+                     {"api": "MeanFieldTempo", "couplings": "0.5 sigma_x and a Haar-rotated 0.5 sigma_y",
+                      "species": j, "difference_to_plain_Tempo": errj})
+            break
+    # (e) couplings written in a structured basis in which diagonal ENTRIES coincide although the
+    #     eigenvalues differ (Hadamard-rotated sigma_z, Fourier-rotated diag(1,1,-0.5)): unique=True
+    f3 = np.array([[np.exp(2j * np.pi * a * b / 3) for b in range(3)] for a in range(3)]) / np.sqrt(3)
+    for name, cpl, hh in (("sigma_x", op.sigma("x").astype(complex), 0.4 * op.sigma("z") + 0.2 * op.sigma("y")),
+                          ("Fourier-rotated diag(1,1,-0.5)", f3 @ np.diag([1.0, 1.0, -0.5]) @ f3.conj().T,
+                           cases.rand_herm(rng, 3, 0.8))):
+        cpl = (cpl + cpl.conj().T) / 2
+        dd = cpl.shape[0]
+        r0 = np.full((dd, dd), 1.0 / dd, dtype=complex) * 0.5 + np.eye(dd) * 0.5 / dd
+        outs = {}
+        for uq in (True, False):
+            outs["tempo", uq] = np.array(oqupy.Tempo(oqupy.System(hh), oqupy.Bath(cpl, corr), parm, r0,
+                                                     start_time=0.0, unique=uq).compute(
+                                                         0.43, progress_type="silent").states)
+            ptu = oqupy.pt_tempo_compute(bath=oqupy.Bath(cpl, corr), start_time=0.0, end_time=0.43,
+                                         parameters=parm, unique=uq, progress_type="silent")
+            outs["pt", uq] = np.array(oqupy.compute_dynamics(oqupy.System(hh), initial_state=r0,
+                                                             process_tensor=ptu, start_time=0.0,
+                                                             progress_type="silent").states)
+        for api in ("tempo", "pt"):
+            erru = float(np.abs(outs[api, True] - outs[api, False]).max())
+            res.case("relation:structured-basis:%s:%s" % (api, name), True, {"unique_vs_not": erru})
+            if erru > 1e-6:
+                res.fail("covariance:%s with unique=True, coupling %s" % (api, name),
+                         {"api": api, "coupling": name, "difference_unique_vs_not": erru})
     for use in (1, 2, 3):
         st = np.array(oqupy.compute_dynamics(sysm, initial_state=rho, process_tensor=pt,
                                              start_time=0.0, progress_type="silent").states)
